@@ -70,11 +70,17 @@ func (g *G) chance(label string, pct int) bool  { return rapid.IntRange(0, 99).D
 // ---------------------------------------------------------------- types
 
 func (g *G) scalarType(label string) *Type {
+	if g.cfg.Bias == "heap" && g.chance(label+"-heapbias", 50) {
+		return TText
+	}
 	return rapid.SampledFrom([]*Type{TZahl, TZahl, TKomma, TByte, TBool, TChar, TText, TText}).Draw(g.t, label)
 }
 
 func (g *G) anyType(label string) *Type {
 	k := g.intn(label+"-kind", 0, 9)
+	if g.cfg.Bias == "heap" && k <= 5 && g.chance(label+"-heapbias2", 50) {
+		k = 6 + k%4 // lists and Kombinationen instead of scalars
+	}
 	switch {
 	case k <= 5:
 		return g.scalarType(label)
@@ -316,6 +322,10 @@ func (g *G) Expr(t *Type, depth int) Expr {
 			op := rapid.SampledFrom([]string{"kleiner", "groesser", "kleinergleich", "groessergleich"}).Draw(g.t, "op")
 			lt, rt := num("lt"), num("rt")
 			g.feat("bin:" + op + ":" + lt.Src() + "," + rt.Src())
+			if g.chance("cmp-boundary", 40) {
+				n := g.intn("cmp-base", -3, 6)
+				return &Bin{Op: op, L: g.near(lt, n), R: g.near(rt, n), T: t}
+			}
 			return &Bin{Op: op, L: g.Expr(lt, d), R: g.Expr(rt, d), T: t}
 		case 6, 7, 8:
 			op := rapid.SampledFrom([]string{"gleich", "ungleich"}).Draw(g.t, "op")
@@ -347,6 +357,11 @@ func (g *G) Expr(t *Type, depth int) Expr {
 		case 9:
 			xt, at, bt := num("xt"), num("at"), num("bt")
 			g.feat("between:" + xt.Src() + "," + at.Src() + "," + bt.Src())
+			if g.chance("between-boundary", 60) {
+				// operands around one base value: equal, half a step and one step apart, in mixed numeric types
+				n := g.intn("btw-base", -3, 6)
+				return &Between{X: g.near(xt, n), A: g.near(at, n), B: g.near(bt, n)}
+			}
 			return &Between{X: g.Expr(xt, d), A: g.Expr(at, d), B: g.Expr(bt, d)}
 		case 10:
 			ft := rapid.SampledFrom([]*Type{TZahl, TByte}).Draw(g.t, "castfrom")
@@ -482,6 +497,34 @@ func eqClass(t *Type) string {
 		return "Kombination"
 	}
 	return t.Src()
+}
+
+// near returns a literal of numeric type t close to n: n, n +- 0.5 (Kommazahl only), n +- 1, n +- 2
+func (g *G) near(t *Type, n int) Expr {
+	switch t {
+	case TKomma:
+		return &Lit{T: t, F: float64(n) + rapid.SampledFrom([]float64{0, 0.5, -0.5, 1, -1, 2, -2.5}).Draw(g.t, "near-k")}
+	case TByte:
+		v := n + rapid.SampledFrom([]int{0, 1, -1, 2}).Draw(g.t, "near-b")
+		if v < 0 {
+			v = 0
+		}
+		return &Lit{T: t, I: int64(v)}
+	}
+	return &Lit{T: TZahl, I: int64(n + rapid.SampledFrom([]int{0, 0, 1, -1, 2, -2}).Draw(g.t, "near-z"))}
+}
+
+// heapTemp builds an expression of a non-primitive type that allocates a temporary when evaluated
+func (g *G) heapTemp(t *Type) Expr {
+	base := g.Expr(t, 1)
+	switch g.intn("heaptemp", 0, 2) {
+	case 0:
+		return &Bin{Op: "concat", L: base, R: g.lit(t), T: t}
+	case 1:
+		return &SliceFrom{X: base, N: smallZahl(g, "ht-from", 1, 2)}
+	default:
+		return &Falls{Then: base, Cond: g.Expr(TBool, 1), Else: g.lit(t)}
+	}
 }
 
 func (g *G) nonZero(t *Type) Expr {
@@ -896,6 +939,16 @@ func (g *G) stmt() []Stmt {
 		cond := Expr(&Bin{Op: "groesser", L: &Ref{Name: c, T: TZahl}, R: &Lit{T: TZahl, I: 0}, T: TBool})
 		if g.chance("while-extra-cond", 30) {
 			cond = &Bin{Op: "und", L: cond, R: g.Expr(TBool, 1), T: TBool}
+		} else if g.cfg.Bias == "heap" && g.chance("while-heap-cond", 50) {
+			// a condition that creates temporaries on every evaluation
+			ht := rapid.SampledFrom([]*Type{TText, ListOf(TZahl), ListOf(TText)}).Draw(g.t, "whct")
+			extra := &Bin{Op: rapid.SampledFrom([]string{"gleich", "ungleich"}).Draw(g.t, "whop"), L: g.heapTemp(ht), R: g.heapTemp(ht), T: TBool}
+			cond = &Bin{Op: rapid.SampledFrom([]string{"und", "oder"}).Draw(g.t, "whjoin"), L: extra, R: cond, T: TBool}
+			if b := cond.(*Bin); b.Op == "oder" { // keep termination: (extra oder wahr-ish) would not terminate
+				b.Op = "und"
+				b.L = &Bin{Op: "oder", L: extra, R: &Lit{T: TBool, B: true}, T: TBool}
+			}
+			g.feat("loop-cond:temporaries")
 		}
 		g.loop++
 		body := append([]Stmt{&Compound{Op: "verringere", Target: LValue{Root: c, RT: TZahl, T: TZahl}, X: &Lit{T: TZahl, I: 1}}}, g.block(g.intn("while-n", 1, 3))...)
@@ -943,6 +996,15 @@ func (g *G) stmt() []Stmt {
 			}
 			if g.chance("zstep", 50) {
 				s.Step = &Lit{T: TZahl, I: rapid.SampledFrom([]int64{1, 2, 3, -1, -2}).Draw(g.t, "zs")}
+			}
+			if g.cfg.Bias == "heap" && g.chance("for-heap-bound", 50) {
+				// end value / step computed from temporaries
+				ht := rapid.SampledFrom([]*Type{TText, ListOf(TZahl), ListOf(TText)}).Draw(g.t, "fhbt")
+				s.To = &Un{Op: "len", X: g.heapTemp(ht), T: TZahl}
+				if g.chance("for-heap-step", 30) {
+					s.Step = &Bin{Op: "plus", L: &Un{Op: "len", X: g.heapTemp(ht), T: TZahl}, R: &Lit{T: TZahl, I: 1}, T: TZahl}
+				}
+				g.feat("loop-bound:temporaries")
 			}
 		}
 		g.push()
